@@ -418,16 +418,18 @@ def records_of(d, xs):
     return out
 
 
-def check(pid, tier, seed, as_c05=False):
+def check(pid, tier, seed, as_c05=False, as_c04=False):
     """as_c05: run for property C05 (non-blocking sockets never sleep): the same scenarios (a smaller sample), but the
     C05.wait records are the verdicts and (violations, known, coverage) is returned instead of written as evidence"""
     t0 = time.time()
     if tier not in TIERS:
         tier = "quick"
     T = TIERS[tier]
-    if as_c05:
+    if as_c05 or as_c04:
         T = dict(T, max_paths=min(T["max_paths"], 2500 if tier == "quick" else 20000))
-    prim = "C05." if as_c05 else "C13."
+    # as_c04 (event-loop contract during resolution and multi-address connect): the hang verdicts - a lost wake-up while
+    # the model is in step, a call that never returns, no verdict within the watchdog - are the verdicts
+    prim = "C05." if as_c05 else "C13.hang" if as_c04 else "C13."
     rnd = random.Random(seed)
     binary = vlib.build(["tconn_exec"])[0]
     if os.path.isdir(vlib.REPLAYS):         # replay files of earlier runs of this check
@@ -615,7 +617,7 @@ def check(pid, tier, seed, as_c05=False):
                realtime_harness_failures=len(rt_fails),
                mismatch_classes={k: len(v) for k, v in classes.items()}, notes=dict(notes), known_findings=known,
                exhaustive=False)
-    if as_c05:
+    if as_c05 or as_c04:
         return violations, known, cov
     vlib.write_evidence(pid, tier, seed, "model_checking", cov, time.time() - t0, violations=len(violations),
                         assumptions=["loopback TCP behaves like the envelope: a listener accepts, a bound non-listening port "
